@@ -1,6 +1,6 @@
 (* Props/C05.v — pinned statements for property C05 (integer decoding is value-preserving across
    widths; it never wraps or truncates). *)
-From MC Require Import Bytes Monad Cbor Decoder Acc Accessors DecoderFacts IntFacts.
+From MC Require Import Bytes Monad Cbor Decoder Acc Accessors DecoderFacts IntFacts IntConv IntConvFacts.
 Local Open Scope N_scope.
 
 (* For every well-formed item e (any head width), at any position in any input, each of the nine
@@ -20,6 +20,25 @@ Theorem C05_datatype : forall c e r p L,
              /\ run_acc c a (mkdst p (ser e ++ r) L) = (Ok v, mkdst (p + len (ser e)) r L).
 Proof. exact datatype_accepts. Qed.
 
+(* data::Int covers exactly [-2^64, 2^64-1]: construction from an i128 succeeds iff the value is in that
+   range and then denotes it … *)
+Theorem C05_Int_from_i128 : forall z,
+  match int_of_i128 z with
+  | Some i => int_ok i /\ int_val i = z
+  | None => (z < -18446744073709551616 \/ 18446744073709551615 < z)%Z
+  end.
+Proof. exact int_of_i128_exact. Qed.
+
+(* … and every conversion out of Int is exact when it succeeds and fails exactly outside the target range
+   (max = the target type's MAX; the lower bound is 0 resp. -1-max). *)
+Theorem C05_Int_to_unsigned : forall max i, (0 <= max <= 18446744073709551615)%Z -> int_ok i ->
+  int_to_unsigned max i = if ((0 <=? int_val i) && (int_val i <=? max))%Z then Some (int_val i) else None.
+Proof. exact int_to_unsigned_exact. Qed.
+
+Theorem C05_Int_to_signed : forall max i, (0 <= max <= 9223372036854775807)%Z -> int_ok i ->
+  int_to_signed max i = if ((-1 - max <=? int_val i) && (int_val i <=? max))%Z then Some (int_val i) else None.
+Proof. exact int_to_signed_exact. Qed.
+
 (* the hypotheses are satisfiable by non-trivial instances *)
 Example C05_ints_example :
   run_acc cfg_full AI16 (mkdst 3 (ser (ENInt W2 32767) ++ [7]) 100) = (Ok (VZ (-32768)), mkdst 6 [7] 100)
@@ -28,3 +47,6 @@ Proof. vm_compute. auto. Qed.
 
 Print Assumptions C05_ints.
 Print Assumptions C05_datatype.
+Print Assumptions C05_Int_from_i128.
+Print Assumptions C05_Int_to_unsigned.
+Print Assumptions C05_Int_to_signed.
